@@ -231,6 +231,59 @@ def unrodded(S, cfg):
 unrodded.cname = 'Homogeneous._calc_coolant_temp'
 
 
+def weights_frozen(S, cfg):
+    """the mass-flow weights of the step balance are constants of the sweep: the per-step parameter update
+    (_update_coolant_int_params / _update_coolant_byp_params, called at the end of every step with the new average
+    temperature) changes velocity, Reynolds numbers, film coefficients and mixing parameters but NOT the flow split,
+    the subchannel mass flows or the bypass flows - otherwise the enthalpy flow sum m_i cp T_i would jump between two
+    steps with no heat behind it. The flow-split correlation is given as one that WOULD return a different split."""
+    n_duct = cfg.get('n_duct', 1)
+    rr = make_rodded(S, n_ring=cfg.get('n_ring', 2), n_duct=n_duct, tdep=True)
+    set_int_params(S, rr)
+    set_temps(S, rr)
+    rr.coolant_int_params['Re'] = S.pos('Re0', 1e3, 1e5)
+    rr.coolant_int_params['vel'] = S.pos('vel0', 1.0, 8.0)
+    rr.coolant_int_params['Re_sc'] = np.array([1.0, 1.0, 1.0], dtype=object if S.mode == 'sym' else float)
+    rr.coolant_int_params['ff'] = S.pos('ff0', 0.01, 0.05)
+    other_split = S.vec('fs_other', 3, 'pos', 0.8, 1.2)
+    calls = []
+
+    def fs_corr(region, grid=False):
+        calls.append('fs')
+        return other_split
+    rr.corr['fs'] = fs_corr
+    rr.corr['ff'] = lambda region: S.pos('ff_other', 0.01, 0.05)
+    rr.corr['nu'] = lambda cool, re_sc, par: np.array([7.0, 7.0, 7.0], dtype=object if S.mode == 'sym' else float)
+    rr.corr['mix'] = lambda region: (S.nonneg('mix_eddy', 0.0, 0.1), S.nonneg('mix_swirl', 0.0, 0.5))
+    rr.htc_params = {'duct': [0.023, 0.8, 0.8, 7.0]}
+    if hasattr(rr, '_coolant_tracker'):
+        del rr._coolant_tracker
+    fs0 = list(rr.coolant_int_params['fs'])
+    mfr0 = list(rr.sc_mfr)
+    tot0 = rr.int_flow_rate
+    byp0 = list(np.ravel(rr.byp_flow_rate)) if rr.n_bypass else []
+    T_new = S.pos('T_new', 620.0, 900.0)
+    rr._update_coolant_int_params(T_new)
+    if rr.n_bypass:
+        rr.corr['byp_nu'] = rr.corr['nu']
+        try:
+            rr._update_coolant_byp_params([T_new] * rr.n_bypass)
+        except Exception as e:                      # correlations of the bypass not stubbed completely: frame only
+            S.note(f'bypass update raised {type(e).__name__} after the frame was observed')
+    for t in range(3):
+        S.eq(f'weights.flow_split_frozen[{t}]', rr.coolant_int_params['fs'][t], fs0[t])
+    for i, m in enumerate(mfr0):
+        S.eq(f'weights.subchannel_mass_flow_frozen[{i}]', rr.sc_mfr[i], m)
+    S.eq('weights.bundle_flow_frozen', rr.int_flow_rate, tot0)
+    for i, m in enumerate(byp0):
+        S.eq(f'weights.bypass_flow_frozen[{i}]', np.ravel(rr.byp_flow_rate)[i], m)
+    S.eq('canary.weights_follow_the_correlation', rr.coolant_int_params['fs'][0], other_split[0], canary=True)
+
+
+weights_frozen.cname = 'RoddedRegion._update_coolant_int_params/frame'
+weights_frozen.run_kw = dict(check_div=False)
+
+
 def carry_over(S, cfg):
     """region change: every coolant node of the new region gets the mixed-mean
     temperature of the old one, hence the new mixed mean equals the old one"""
@@ -306,6 +359,8 @@ def configs(tier):
         out.append((unrodded, dict(model=model, lowflow=True)))
         out.append((unrodded, dict(model=model, adiabatic=True)))
         out.append((unrodded, dict(model=model, mratio=1.0)))
+    out.append((weights_frozen, dict(n_ring=2)))
+    out.append((weights_frozen, dict(n_ring=2, n_duct=2)))
     out.append((carry_over, dict(kind='rr->ur')))
     out.append((carry_over, dict(kind='rr->ur', n_duct=2)))
     out.append((carry_over, dict(kind='rr->ur', n_duct=3)))
